@@ -110,10 +110,6 @@ def py_detect(payload):
     return py_detect_one(payload)
 
 
-def _best_effort_ok(error):
-    return True     # v1/Loose accept any non-null error
-
-
 def classify(proto, p):
     """(id token or '-', well-formed?, result token 'vN'/'eN') of response payload `p` under
     protocol `proto` - the validity rules of JSON-RPC 1.0 / 2.0 / Loose as this library reads
@@ -357,7 +353,6 @@ def oracle(case, trace):
     for step, (op, rec) in enumerate(zip(case['ops'], trace)):
         k = op[0]
         where = f'op {step} {json.dumps(op)}'
-        unchanged_except = set()
         if k in 'SB':
             if rec['exc'] is None:
                 ids = rec['ids']
@@ -837,10 +832,10 @@ def run(ctx):
         ex = list(exhaustive_cases(facts, 3, ['S', 'B:rr', 'B:nrr'], (0, 1), thin=3))
         evaluate(ctx, ex, res, 'exhaustive_3_sends_every_3rd')
     # (c) seeded structured generator + hostile stream
-    ngen = (3000, 40000, 300000)[depth()]
+    ngen = (8000, 40000, 300000)[depth()]
     gen = [c for c in (random_case(rng, facts) for _ in range(ngen)) if usable(c)]
     evaluate(ctx, gen, res, 'generated')
-    nh = (1500, 10000, 100000)[depth()]
+    nh = (3000, 10000, 100000)[depth()]
     hostile = [c for c in (random_case(rng, facts, hostile=True) for _ in range(nh)) if usable(c)]
     evaluate(ctx, hostile, res, 'hostile')
     for c in gen[:2] + hostile[:1]:
